@@ -12,13 +12,14 @@ def ownA : ThreadId → AppId → Oid → Prop := fun _ b o => o.app = b
 def PA (a : AppId) : ThreadId → AppId → Prop := fun _ b => b = a
 def SA (a : AppId) : Inst → Prop := fun i => i.app = a
 
-theorem readsOf_eq_filtered (a : AppId) (ops : List Op) (h h' : Heap)
+theorem readsOf_eq_filtered (a : AppId) (ops : List Op) (hsh : ∀ op ∈ ops, op.acc.sharedOk) (h h' : Heap)
     (g : Agree (PA a) (SA a) h h') (ow : Own ownA h) (ow' : Own ownA h') :
     readsOf .perInstance a h ops =
       (runOps .perInstance h' (ops.filter (fun op => op.app = a))).2 := by
   induction ops generalizing h h' with
   | nil => simp [readsOf, runOps]
   | cons op r ih =>
+    have ih := ih (fun o ho => hsh o (by simp [ho]))
     have hind : ∀ (o : Oid) (u u' : ThreadId), ownA u op.app o → ownA u' op.app o := fun _ _ _ x => x
     have own1 : Own ownA (exec .perInstance op.thread op.app op.acc h).1 :=
       exec_own op.thread op.app op.acc ow (fun _ => rfl) (Or.inr hind)
@@ -36,6 +37,7 @@ theorem readsOf_eq_filtered (a : AppId) (ops : List Op) (h h' : Heap)
     · have hfr := exec_frame (P := PA a) (S := SA a) op.thread op.app op.acc ow hop
         (fun o => by simp [SA, hop])
         (fun o ho => by simp only [PA]; intro hc; exact hop (by rw [← ho, hc]))
+        (hsh op (by simp))
       simp only [readsOf, hop, if_false, List.filter_cons, decide_false]
       exact ih _ _ (hfr.symm.trans g) own1 ow'
 
@@ -48,6 +50,10 @@ def ST (t : ThreadId) : Inst → Prop := fun i => ∃ b n, i = .copy t b n
 
 theorem ThreadOwned.own {h : Heap} (o : ThreadOwned h) : Own ownT h :=
   ⟨o.regs, o.tls, o.hd, fun i k x _ hx => absurd hx (o.slots i k x)⟩
+
+theorem ThreadOwned.boot : ThreadOwned Heap.boot :=
+  ⟨fun _ _ _ _ h => by simp [Heap.boot, Heap.empty] at h, fun _ _ _ _ h => by simp [Heap.boot, Heap.empty] at h,
+   fun _ _ _ h => by simp [Heap.boot, Heap.empty] at h, fun _ _ _ h => by simp [Heap.boot, Heap.empty] at h⟩
 
 theorem ThreadOwned.empty : ThreadOwned Heap.empty :=
   ⟨fun _ _ _ _ h => by simp [Heap.empty] at h, fun _ _ _ _ h => by simp [Heap.empty] at h,
@@ -125,6 +131,10 @@ theorem exec_slots_of_attrOk (t : ThreadId) (a : AppId) (acc : Access) (h : Heap
     simp only [plan] at hu
     simp at hu
     subst hu; simp
+  | errGet e k' =>
+    simp only [plan] at hu
+    split at hu <;> simp at hu
+  | errSet e k' x => exact absurd hok id
 
 theorem exec_threadOwned (t : ThreadId) (a : AppId) (acc : Access) (h : Heap) (hok : acc.attrOk)
     (o : ThreadOwned h) : ThreadOwned (exec .perInstance t a acc h).1 := by
@@ -245,7 +255,7 @@ theorem run_thread_eq_solo (a : AppId) (t : ThreadId) (sched : List ThreadId) (m
               intro ⟨b', n, hb⟩
               cases o <;> simp [Obj.inst] at hb
               exact hu hb.1)
-            (fun o ho => by simp only [PT]; rw [ho]; exact hu)
+            (fun o ho => by simp only [PT]; rw [ho]; exact hu) (Access.sharedOk_of_attrOk hok)
           have := ih ⟨(exec .perInstance u a acc m.heap).1,
               upd m.threads u ⟨k (exec .perInstance u a acc m.heap).2,
                 (m.threads u).trace ++ [(exec .perInstance u a acc m.heap).2], (m.threads u).out⟩,
